@@ -3,7 +3,7 @@ import itertools
 
 from hypothesis import strategies as st
 
-from pbt import tok as T
+from pbt import build, tok as T
 from pbt.common import build_input
 from pbt.runner import Outcome
 from pbt.sut import TokenisationException
@@ -63,7 +63,12 @@ def _wild(draw, shard, nshards):
 @st.composite
 def _closure(draw, shard, nshards):
     cfg = draw(T.config(shard=shard, nshards=nshards))
-    return {"kind": "closure", "cfg": cfg, "piece": draw(T.piece(cfg))}
+    case = {"kind": "closure", "cfg": cfg, "piece": draw(T.piece(cfg))}
+    if cfg.get("ppqn") in (None, 24) and not case["piece"]["crossing"] and draw(st.integers(0, 3)) == 0:
+        # the input sequences are assembled from Bar objects (per-bar sequences shorter than the bar, padded by Bar, joined with
+        # Bar.to_sequence) or taken from a Composition, the way a user builds a piece bar by bar
+        case["via"] = draw(st.sampled_from(["bars_direct", "composition"]))
+    return case
 
 
 @st.composite
@@ -229,6 +234,25 @@ def check(case):
         seqs.append(built[0])
         nnotes += len(built[3])
     out.nontrivial = nnotes >= 1
+    if case.get("via"):
+        out.label("via-" + case["via"])
+        from pbt.sut import Bar, Composition
+        try:
+            if case["via"] == "composition":
+                seqs = Composition.from_sequences(seqs, piece["meta_track"]).to_sequences()
+            else:
+                joined = []
+                for spec in piece["tracks"]:
+                    bars = []
+                    for start, length, (num, den) in piece["bars"]:
+                        notes = [[n[0], n[1], n[2] - start, n[3] - start, n[4]] for n in spec["notes"] if start <= n[2] < start + length]
+                        bars.append(Bar(build.sequence({"notes": notes, "meta": [], "route": spec.get("route", "abs_sorted"),
+                                                        "perm": spec.get("perm"), "pad": None}), num, den))
+                    joined.append(Bar.to_sequence(bars))
+                seqs = joined
+        except Exception as e:
+            out.inconclusive = f"assembly-raised:{type(e).__name__}"
+            return out
     try:
         tokens = tok.tokenise(seqs)
     except TokenisationException:
